@@ -455,7 +455,7 @@ fn gen_big_history(rng: &mut Rng, o: &HistOpts) -> Vec<Op> {
 
 /// Thresholds at which an implementation may switch strategy (serial -> parallel, small-vector -> map) sit
 /// at thousands of edges: a history that loads 2 100 - 12 500 edges in a few batches, then a short tail.
-pub fn gen_huge_history(rng: &mut Rng, specs: Specs, regime: WeightRegime, derived: bool) -> Vec<Op> {
+fn load_dense(rng: &mut Rng, specs: Specs, regime: WeightRegime) -> (Vec<String>, Vec<Op>, u32) {
     let m_target = *rng.pick(&[2100usize, 2600, 4200, 5000, 8300, 9000, 10500, 12500]);
     let cap = |n: usize| if specs.directed { n * (n - 1) } else { n * (n - 1) / 2 };
     let mut n = 40;
@@ -529,6 +529,147 @@ pub fn gen_huge_history(rng: &mut Rng, specs: Specs, regime: WeightRegime, deriv
             ops.push(Op::Restart(specs, ns, es));
         }
     }
+    (names, ops, tok)
+}
+
+/// many nodes / a hub of very high degree, sparse otherwise
+fn load_sparse(rng: &mut Rng, specs: Specs, regime: WeightRegime, variant: u8) -> (Vec<String>, Vec<Op>, u32) {
+    let n = match variant {
+        1 => rng.range(2048, 2600),
+        2 => rng.range(1100, 1600),
+        _ => rng.range(4100, 4500),
+    };
+    let mut names: Vec<String> = (0..n).map(|i| format!("{}{}", ["s", "S", "t", "x"][i % 4], i)).collect();
+    rng.shuffle(&mut names);
+    let mut decl: Vec<NodeSpec> = names.iter().map(|s| (s.clone(), if rng.chance(1, 8) { Some(rng.below(1000) as u32) } else { None })).collect();
+    if variant == 1 {
+        // a few names are declared twice in the same call, with another attribute (the later one replaces)
+        for _ in 0..rng.range(0, 3) {
+            let k = rng.below(decl.len());
+            let at = rng.range(k + 1, decl.len());
+            let dup = (decl[k].0.clone(), Some(7000 + rng.below(100) as u32));
+            decl.insert(at, dup);
+        }
+    }
+    let mut ops = vec![Op::AddNodes(decl)];
+    let hub = rng.below(n);
+    let mut pairs: Vec<(usize, usize)> = vec![];
+    if variant >= 2 {
+        for v in 0..n {
+            if v != hub && rng.chance(97, 100) {
+                pairs.push(if rng.chance(1, 2) { (hub, v) } else { (v, hub) });
+            }
+        }
+    }
+    let mut seen: std::collections::BTreeSet<(usize, usize)> = pairs.iter().map(|&(u, v)| if specs.directed || u < v { (u, v) } else { (v, u) }).collect();
+    for _ in 0..rng.range(n / 4, n) {
+        let (u, v) = (rng.below(n), rng.below(n));
+        if u == v {
+            continue;
+        }
+        let k = if specs.directed || u < v { (u, v) } else { (v, u) };
+        if seen.insert(k) {
+            pairs.push((u, v));
+        }
+    }
+    rng.shuffle(&mut pairs);
+    let mut tok = 0u32;
+    let mut mk = |rng: &mut Rng, u: usize, v: usize, names: &Vec<String>| {
+        tok += 1;
+        E { u: names[u].clone(), v: names[v].clone(), w: wbits(regime.draw(rng)), attr: if tok % 5 == 0 { None } else { Some(tok) } }
+    };
+    let first: Vec<E> = pairs.iter().map(|&(u, v)| mk(rng, u, v, &names)).collect();
+    ops.push(Op::AddEdges(first));
+    let distinct_only = !specs.multi && specs.dedupe == Dedupe::Error;
+    if !distinct_only && !pairs.is_empty() {
+        // second edges on pairs of the hub (and a few others), in either orientation, in a later call: the
+        // adjacency lists are not in position order by then
+        let hub_pairs: Vec<(usize, usize)> = pairs.iter().filter(|p| variant >= 2 && (p.0 == hub || p.1 == hub)).copied().collect();
+        let mut second: Vec<E> = vec![];
+        for _ in 0..rng.range(3, 40) {
+            let p = if !hub_pairs.is_empty() && rng.chance(3, 4) { *rng.pick(&hub_pairs) } else { *rng.pick(&pairs) };
+            let (u, v) = if !specs.directed && rng.chance(1, 2) { (p.1, p.0) } else { p };
+            second.push(mk(rng, u, v, &names));
+        }
+        if rng.chance(1, 2) {
+            ops.push(Op::AddEdges(second));
+        } else {
+            // a few one by one, the rest in one call
+            let rest = second.split_off(second.len().min(5));
+            for e in second {
+                ops.push(Op::AddEdge(e));
+            }
+            if !rest.is_empty() {
+                ops.push(Op::AddEdges(rest));
+            }
+        }
+    }
+    (names, ops, tok)
+}
+
+pub fn gen_huge_history(rng: &mut Rng, specs: Specs, regime: WeightRegime, derived: bool) -> Vec<Op> {
+    gen_huge_history_v(rng, specs, regime, derived, &[0])
+}
+
+/// a batch of >= 256 edges on a graph of its own that the specs reject late (None when they reject nothing)
+fn failing_load(rng: &mut Rng, specs: Specs, regime: WeightRegime) -> Option<Op> {
+    let n = rng.range(30, 60);
+    let names: Vec<String> = (0..n).map(|i| format!("z{}", i)).collect();
+    let mut es: Vec<E> = vec![];
+    let mut seen = std::collections::BTreeSet::new();
+    let want = rng.range(260, 420);
+    let mut guard = 0;
+    while es.len() < want && guard < 100_000 {
+        guard += 1;
+        let (u, v) = (rng.below(n), rng.below(n));
+        if u == v {
+            continue;
+        }
+        let k = if specs.directed || u < v { (u, v) } else { (v, u) };
+        if !seen.insert(k) {
+            continue;
+        }
+        es.push(E { u: names[u].clone(), v: names[v].clone(), w: wbits(regime.draw(rng)), attr: None });
+    }
+    let mut rejected: Vec<E> = vec![];
+    if !specs.self_loops && specs.slf == Slf::Error {
+        rejected.push(E { u: names[0].clone(), v: names[0].clone(), w: wbits(regime.draw(rng)), attr: None });
+    }
+    if specs.missing == Missing::Error {
+        rejected.push(E { u: names[1].clone(), v: "never declared".to_string(), w: wbits(regime.draw(rng)), attr: None });
+    }
+    if !specs.multi && specs.dedupe == Dedupe::Error {
+        rejected.push(es[rng.below(es.len())].clone());
+    }
+    if rejected.is_empty() {
+        return None;
+    }
+    let r = rejected.swap_remove(rng.below(rejected.len()));
+    let at = es.len() - rng.below(es.len() / 5);
+    es.insert(at, r);
+    // a few more edges after the rejected one (they must not be applied)
+    Some(Op::Restart(specs, names.into_iter().map(|s| (s, None)).collect(), es))
+}
+
+/// `variants`: 0 = dense (45-180 nodes, 2 100 - 12 500 edges), 1 = many nodes (2 048 - 2 600 declared in one call,
+/// a few names repeated), 2 = a hub with 1 100 - 1 600 neighbours, 3 = a hub with 4 100 - 4 500 neighbours
+pub fn gen_huge_history_v(rng: &mut Rng, specs: Specs, regime: WeightRegime, derived: bool, variants: &[u8]) -> Vec<Op> {
+    let variant = *rng.pick(variants);
+    let mut pre: Vec<Op> = vec![];
+    if rng.chance(1, 2) {
+        // fault, then recovery, at scale: a large load into ANOTHER graph fails part-way on this thread first
+        if let Some(op) = failing_load(rng, specs, regime) {
+            pre.push(op);
+        }
+    }
+    let (names, mut ops, tok): (Vec<String>, Vec<Op>, u32) = if variant == 0 {
+        let (names, ops, tok) = load_dense(rng, specs, regime);
+        (names, ops, tok)
+    } else {
+        load_sparse(rng, specs, regime, variant)
+    };
+    pre.append(&mut ops);
+    let mut ops = pre;
     // a short tail on the loaded graph
     let mut model = Model::new(specs);
     for op in &ops {
@@ -567,6 +708,74 @@ pub fn gen_huge_history(rng: &mut Rng, specs: Specs, regime: WeightRegime, deriv
         ops.push(op);
     }
     ops
+}
+
+/// A graph of 4 150 - 4 600 nodes in which one hub is adjacent to more than 4 096 of them; sparse otherwise, with a
+/// few small separate components and isolated nodes (node-count and degree thresholds).
+pub fn gen_hub_graph(rng: &mut Rng, directed: bool, multi: bool, self_loops: bool, regime: WeightRegime) -> (Specs, Vec<Op>) {
+    let specs = Specs::kind(directed, multi, self_loops);
+    let n = rng.range(4150, 4600);
+    let names = node_names(rng, n);
+    let hub = rng.below(n);
+    let outside = rng.range(3, (n - 4100).max(4)); // nodes the hub is not adjacent to
+    let mut not_adjacent: std::collections::BTreeSet<usize> = std::collections::BTreeSet::new();
+    while not_adjacent.len() < outside {
+        let x = rng.below(n);
+        if x != hub {
+            not_adjacent.insert(x);
+        }
+    }
+    let mut pairs: Vec<(usize, usize)> = vec![];
+    for v in 0..n {
+        if v != hub && !not_adjacent.contains(&v) {
+            pairs.push(if rng.chance(1, 2) { (hub, v) } else { (v, hub) });
+        }
+    }
+    if rng.chance(1, 2) {
+        // a second hub: a search that reaches it late finds most of its neighbours already seen
+        let hub2 = (hub + 1 + rng.below(n - 1)) % n;
+        let skip = rng.range(3, 40);
+        for v in 0..n {
+            if v != hub2 && v != hub && !not_adjacent.contains(&v) && (v + hub2) % (n / skip) != 0 {
+                pairs.push(if rng.chance(1, 2) { (hub2, v) } else { (v, hub2) });
+            }
+        }
+    }
+    // sparse random rest: about n/2 further edges, some of them among the nodes the hub does not reach directly
+    for _ in 0..n / 2 {
+        let (u, v) = (rng.below(n), rng.below(n));
+        if u != v && u != hub && v != hub {
+            pairs.push((u, v));
+        }
+    }
+    let na: Vec<usize> = not_adjacent.iter().copied().collect();
+    for _ in 0..na.len() {
+        let (u, v) = (*rng.pick(&na), rng.below(n));
+        if u != v && v != hub {
+            pairs.push(if rng.chance(1, 2) { (u, v) } else { (v, u) });
+        }
+    }
+    let mut seen = std::collections::BTreeSet::new();
+    pairs.retain(|&(u, v)| seen.insert(if directed || u <= v { (u, v) } else { (v, u) }));
+    if self_loops {
+        for _ in 0..rng.range(0, 3) {
+            let u = rng.below(n);
+            pairs.push((u, u));
+        }
+    }
+    if multi {
+        for _ in 0..rng.range(0, 20) {
+            let p = *rng.pick(&pairs);
+            pairs.push(p);
+        }
+    }
+    rng.shuffle(&mut pairs);
+    let mut ops: Vec<Op> = vec![Op::AddNodes(names.iter().map(|s| (s.clone(), None)).collect())];
+    let es: Vec<E> = pairs.iter().map(|&(u, v)| E { u: names[u].clone(), v: names[v].clone(), w: wbits(regime.draw(rng)), attr: None }).collect();
+    for c in es.chunks(1000) {
+        ops.push(Op::AddEdges(c.to_vec()));
+    }
+    (specs, ops)
 }
 
 /// A dense graph (one to three dense blocks) with 8 200 - 12 500 stored edges, or 2 100 - 5 000.
@@ -648,6 +857,8 @@ pub enum Shape {
     /// a hub joined to 3-5 identical parts (cliques, cycles or paths of equal weight) by spokes whose weights
     /// are graded in steps of 2^-41 ... 2^-35 or one ulp: alternatives that are nearly, but not exactly, tied
     GradedHub,
+    /// circulant graph C_n(1..k): every node has the same degree (k = 2..4 up to 99 nodes, 5..9 from 100 nodes)
+    Circulant,
 }
 pub const ALL_SHAPES: &[Shape] = &[Shape::Gnp, Shape::Path, Shape::Cycle, Shape::Star, Shape::Grid, Shape::Cliques, Shape::LayeredDag, Shape::Union, Shape::Tree, Shape::Bipartite, Shape::NestedScc];
 
@@ -860,6 +1071,17 @@ pub fn shape_pairs(rng: &mut Rng, shape: Shape, n: usize, directed: bool) -> Vec
                 }
             }
             e.retain(|(u, v)| u != v && *u < n && *v < n);
+        }
+        Shape::Circulant => {
+            let k = if n >= 100 { rng.range(5, 9) } else { rng.range(2, 4) };
+            for i in 0..n {
+                for o in 1..=k {
+                    let j = (i + o) % n;
+                    if j != i {
+                        e.push((i, j));
+                    }
+                }
+            }
         }
         Shape::GradedHub => {
             let size = rng.range(3, 5);
